@@ -147,8 +147,9 @@ def classify(tr, line, clause):
     if (clause == "ErrorAfterCommit_surplus" and exc == "FormError" and last.get("stx") and last.get("st", [0, 0, 0, False])[3] is True
             and last.get("txn") is False):
         return "F10:records-after-final-soa-in-same-message:committed-then-FormError"
+    via = str(tr.get("via")) + ("/" + tr["umode"] if tr.get("umode") else "")
     return "%s:%s:%s:%s:%s:%s:%s:%s" % (clause, tr.get("req"), "udp" if tr.get("udp") else "tcp", tr.get("kind"), tr.get("fault"),
-                                        tr.get("zclass"), ("rel" if tr.get("rel") else "abs") + "/" + str(tr.get("via")), exc)
+                                        tr.get("zclass"), ("rel" if tr.get("rel") else "abs") + "/" + via, exc)
 
 
 def nontrivial(script):
@@ -164,12 +165,24 @@ def jobs_for(scripts, offset, per_script):
         picks = [a, (a + 1 + (i // NC) % (NC - 1)) % NC, (a + 7) % NC, (a + 13) % NC][:per_script]
         for cidx in dict.fromkeys(picks):
             zc, rel, via = CONFIGS[cidx]
-            if via in ("query", "aquery") and s["kind"] == "usetcp" and s["fault"]["k"] == "none" and i % 2 == 0:
-                via += "-tryfirst"          # UDPMode.TRY_FIRST: the library retries over TCP after UseTCP
+            # udp_mode of inbound_xfr x kind of request (see replay_query for what the scripted server offers):
+            # AXFR: all three modes (the mode only selects the transport of an IXFR); IXFR answered over UDP: ONLY, and
+            # TRY_FIRST where the library's TCP retry is expected (unfaulted use-TCP answer); IXFR answered over TCP: NEVER,
+            # and TRY_FIRST (a use-TCP datagram first) where the server is known to be ahead of the client
+            umode = ""
+            if via in ("query", "aquery"):
+                r = (i // NC + cidx) % 3
+                if s["req"] == "axfr":
+                    umode = ("NEVER", "TRY_FIRST", "ONLY")[r]
+                elif s["udp"]:
+                    umode = "TRY_FIRST" if s["kind"] == "usetcp" and s["fault"]["k"] == "none" and r != 0 else "ONLY"
+                else:
+                    umode = "TRY_FIRST" if s["kind"] in ("ixfr", "axfrstyle") and r == 0 else "NEVER"
             # query paths over TCP: the connection ends with a clean EOF on the message boundary, after one octet of
             # the next length prefix, or in the middle of the next message (only seen if the transfer is not done by then)
             tail = ("none", "len", "body", "none")[(i // NC + cidx) % 4] if via in ("query", "aquery") and not s["udp"] else "none"
-            jobs.append((s, zc, rel, via, "s%d.%s.%s.%s%s" % (i, zc, "rel" if rel else "abs", via, "" if tail == "none" else "+" + tail), tail))
+            jobs.append((s, zc, rel, via, "s%d.%s.%s.%s%s%s" % (i, zc, "rel" if rel else "abs", via, "/" + umode if umode else "",
+                                                                "" if tail == "none" else "+" + tail), tail, umode))
     return jobs
 
 
@@ -210,7 +223,7 @@ def replay_and_judge(ctx, jobs, parallel=True):
                           tr.get("req"), "udp" if tr.get("udp") else "tcp", tr.get("kind"), tr.get("fault"), tr.get("zclass"),
                           tr.get("rel"), tr.get("via"), json.dumps([m["rrs"] for m in tr.get("msgs", [])])[:400], line, json.dumps(e)[:300]),
                       {"script": job[0] if job else None, "zclass": tr.get("zclass"), "rel": tr.get("rel"), "via": tr.get("via"),
-                       "tail": tr.get("tail", "none"), "line": line, "trace": tr if len(ctx.violations) < 200 else {"tid": tr.get("tid")}})
+                       "tail": tr.get("tail", "none"), "umode": tr.get("umode", ""), "line": line, "trace": tr if len(ctx.violations) < 200 else {"tid": tr.get("tid")}})
 
 
 def run(ctx):
@@ -225,7 +238,8 @@ def run(ctx):
                         "the driver stops reading when the transfer reports done or raises, as dns.query._inbound_xfr does"]
     if ctx.replay_case:
         case = ctx.replay_case["case"]
-        replay_and_judge(ctx, [(case["script"], case["zclass"], case["rel"], case["via"], "replay", case.get("tail", "none"))],
+        replay_and_judge(ctx, [(case["script"], case["zclass"], case["rel"], case["via"], "replay", case.get("tail", "none"),
+                                case.get("umode", ""))],
                          parallel=False)
         return
     # ---------------------------------------------------------------- 1. the specification itself
@@ -233,14 +247,16 @@ def run(ctx):
         mcs = [("mc_small_s2_1step_cut2", params("CSmall", "SS2", 1, cuts=2, qmodes=BOTHQ)),
                ("mc_small_s1_2step_valid_allcuts", params("CSmall", "SS1", 2, faults="NoFaults", cuts=99)),
                ("mc_tiny_s2_2step_cut1", params("CTiny", "SS2", 2, cuts=1)),
-               ("mc_ttl_s3_1step_cut0", params("CTtl", "SS3", 1, cuts=0, revs="{TRUE}"))]
+               ("mc_ttl_s3_1step_cut0", params("CTtl", "SS3", 1, cuts=0, revs="{TRUE}")),
+               ("mc_sig_s1_2step_valid_cut0", params("CSig", "SS1", 2, faults="NoFaults", cuts=0))]
     else:
         mcs = [("mc_small_s123_2step_cut1", params("CSmall", "SS123", 2, cuts=1)),
                ("mc_small_s12_2step_valid_allcuts", params("CSmall", "SS12", 2, faults="NoFaults", cuts=99, qmodes=BOTHQ)),
                ("mc_mid_s2_1step_allcuts", params("CMid", "SS2", 1, cuts=99, revs="{TRUE, FALSE}")),
                ("mc_tiny_s2_3step_cut1", params("CTiny", "SS2", 3, cuts=1)),
                ("mc_ttl_s3_2step_cut1", params("CTtl", "SS3", 2, cuts=1, revs="{TRUE, FALSE}")),
-               ("mc_wide_s1_1step_cut1", params("CWide", "SS1", 1, cuts=1))]
+               ("mc_wide_s1_1step_cut1", params("CWide", "SS1", 1, cuts=1)),
+               ("mc_sig_s2_2step_reorder_cut1", params("CSig", "SS2", 2, faults="ReorderFaultKinds", cuts=1))]
     only = [x for x in os.environ.get("C13_ONLY", "").split(",") if x]   # development aid (mutation runs): restrict
     if only:                                                              # the generator groups, skip the big MC runs
         mcs = []
@@ -256,7 +272,7 @@ def run(ctx):
     # vacuity: every action fires and every refusal reason is reached (-workers 1: TLC registers are per worker)
     wcfg = ctx.cfg("witness.cfg", GEN_CFG.format(init="WInit", next="Next", inv="Witness", **params("CTiny", "SS2", 1, cuts=1)))
     tasks.append(("witness", "Gen_XfrInbound", wcfg, 1, {"coverage": True}))
-    results = run_parallel(ctx, tasks, width=9 if quick else 8)
+    results = run_parallel(ctx, tasks, width=11 if quick else 8)
     w = results[-1]
     whys = {x[0] for x in w.prints.get("WIT", [])}
     zero = [a for a in ACTIONS if w.coverage.get(a, (0, 0))[1] == 0]
@@ -272,7 +288,9 @@ def run(ctx):
                 ("g_valid_wrap", "Gen_XfrInbound", params("CSmall", "SS2", 2, faults="NoFaults", cuts=1, qmodes=BOTHQ)),
                 ("g_faults_1step", "Gen_XfrInbound", params("CSmall", "SS2", 1, cuts=1)),
                 ("g_faults_2step", "Gen_XfrInbound", params("CTiny", "SS1", 2, cuts=0)),
-                ("g_ttl", "Gen_XfrInbound", params("CTtl", "SS3", 1, faults="ReorderFaultKinds", cuts=0, revs="{TRUE}"))]
+                ("g_ttl", "Gen_XfrInbound", params("CTtl", "SS3", 1, faults="ReorderFaultKinds", cuts=0, revs="{TRUE}")),
+                # RRSIGs covering two different types at one owner, removed one at a time (re-signed zone)
+                ("g_rrsig", "Gen_XfrInbound", params("CSig", "SS1", 2, faults="NoFaults", cuts=1))]
         nrnd, rsteps, rcuts, ncont = 1, 2, 0, 2
         flush_at, width = 10 ** 9, 8
     else:
@@ -284,7 +302,8 @@ def run(ctx):
                 ("g_faults_3step", "Gen_XfrInbound", params("CTiny", "SS1", 3, cuts=0)),
                 ("g_faults_mid", "Gen_XfrInbound", params("CMid", "SS3", 1, cuts=0)),
                 ("g_ttl", "Gen_XfrInbound", params("CTtl", "SS3", 2, faults="ReorderFaultKinds", cuts=0, revs="{TRUE, FALSE}")),
-                ("g_wide", "Gen_XfrInbound", params("CWide", "SS1", 1, cuts=0, qmodes=BOTHQ))]
+                ("g_wide", "Gen_XfrInbound", params("CWide", "SS1", 1, cuts=0, qmodes=BOTHQ)),
+                ("g_rrsig", "Gen_XfrInbound", params("CSig", "SS2", 2, faults="ReorderFaultKinds", cuts=1))]
         nrnd, rsteps, rcuts, ncont = 3, 2, 0, 3
         flush_at, width = 40000, 3
     gtasks = []
